@@ -70,6 +70,11 @@ func main() {
 					}
 					b = append(b, []byte(fmt.Sprintf("k%d %d 20%02d-%02d-%02dT%02d:%02d:%02dZ %d.%d\n", r.Intn(6), small,
 						r.Intn(40), 1+r.Intn(12), 1+r.Intn(28), r.Intn(24), r.Intn(60), r.Intn(60), r.Intn(5000), r.Intn(100)))...)
+				} else if c%4 == 0 && i == 0 {
+					// 16-byte lines: line 8192 ends exactly on the last byte of the 128 KiB read buffer and more
+					// input follows, so the scanner refills a buffer that is full and fully consumed while
+					// the lines it handed out are still with the workers
+					b = append(b, []byte(fmt.Sprintf("k%d v%02d %08d\n", r.Intn(6), r.Intn(100), l))...)
 				} else {
 					b = append(b, []byte(fmt.Sprintf("k%d v%d\n", r.Intn(6), r.Intn(100)))...)
 				}
